@@ -213,6 +213,8 @@ class Sock:
 class Udp:
     def __init__(self, node):
         self.node = node; self.bound = None; self.history = []; self.locals = []
+        self.implicit = []       # successful sends issued while unbound (send_to binds 0.0.0.0:0 implicitly): their source
+                                 # endpoint is learnt from the next `local` query of the socket
 
 
 class Analysis:
@@ -528,7 +530,7 @@ def _walk(an, impl):
             u = udps.get(name)
             if u is None: continue
             if m in ("close", "destroy", "open"):
-                u.bound = None
+                u.bound = None; u.implicit = []
                 if m == "destroy": del udps[name]
             elif m == "bind":
                 if r0 == "ok" and len(optk) > 1:
@@ -551,6 +553,7 @@ def _walk(an, impl):
                     continue
                 an.udp_sends.append(dict(sock=name, src=u.bound, dst=parse_ep(optk[1]) if len(optk) > 1 else None, len=ln_, id=did,
                                          ok=(r0 == "ok"), n=n, pos=pos, t=now, node=u.node))
+                if u.bound is None and r0 == "ok": u.implicit.append(an.udp_sends[-1])
             elif m == "recv":
                 h = optk[1] if len(optk) > 1 else "?"
                 o = new_op("recv", h, [])
@@ -566,6 +569,14 @@ def _walk(an, impl):
                     an.udp_recvs.append(dict(sock=name, n=n, ep=parse_ep(rd.get("ep", "")), kind="data" if "data" in rd else "sum",
                                              val=rd.get("data", rd.get("sum", "")), pos=pos, t=now, cap=cap, where="C %s %s" % (ctx, optk[0])))
             elif m == "local":
+                if u.bound is None and u.implicit:
+                    # the endpoint the implicit bind of an earlier send_to gave the socket (nothing released it since):
+                    # it is the "original" source endpoint of those datagrams
+                    e = parse_ep(" ".join(res))
+                    if e is not None and e[1] != 0 and e[0] in scn.nodes.get(u.node, []):
+                        u.bound = e
+                        for sd in u.implicit: sd["src"] = e
+                        u.implicit = []
                 u.locals.append((pos, " ".join(res), u.bound))
             continue
     an.quiescent = saw_R and not saw_X
